@@ -218,6 +218,38 @@ fn check_component(mut so: &mut std::io::StdoutLock, comp: &[u8], sw: Option<&Va
                     Ok(Ok(out)) => {
                         if let Err(e) = validate(&out) {
                             emit(&mut so, "c01_invalid", format!("encode(define_components={dc}, validate={va}) returned Ok but the reference validator rejects the bytes: {e}"));
+                        } else if dc && va {
+                            // C03: nothing is wired, so the composition imports exactly what the component
+                            // imports, at the same types (resources compared by identity), and exports nothing
+                            let t = wasmparser::Validator::new_with_features(wasmparser::WasmFeatures::all()).validate_all(&wrap(&[&out, &comp])).expect("wrapper");
+                            let tr = t.as_ref();
+                            let mut o = ref_entity(&tr, &ComponentEntityType::Component(comp_of(&tr, "c0").unwrap()), &mut Num::default());
+                            let mut c = ref_entity(&tr, &ComponentEntityType::Component(comp_of(&tr, "c1").unwrap()), &mut Num::default());
+                            if o["ex"].as_object().map(|m| !m.is_empty()).unwrap_or(false) {
+                                emit(&mut so, "c03_exports", format!("a composition without exports exports {}", o["ex"]));
+                            }
+                            // (numbering of resources starts with the imports on both sides)
+                            let (oi, ci) = (o["im"].take(), c["im"].take());
+                            // (two import names of the component on one semver track share one import of
+                            // the composition: that case belongs to the graph models, not to this comparison)
+                            let track = |n: &str| -> Option<String> {
+                                let (base, v) = n.rsplit_once('@')?;
+                                let v = semver::Version::parse(v).ok()?;
+                                if !v.pre.is_empty() {
+                                    None
+                                } else if v.major > 0 {
+                                    Some(format!("{base}@{}", v.major))
+                                } else if v.minor > 0 {
+                                    Some(format!("{base}@0.{}", v.minor))
+                                } else {
+                                    None
+                                }
+                            };
+                            let tracks: Vec<String> = ci.as_object().map(|m| m.keys().filter_map(|k| track(k)).collect()).unwrap_or_default();
+                            let shared = tracks.iter().collect::<std::collections::BTreeSet<_>>().len() != tracks.len();
+                            if oi != ci && !shared {
+                                emit(&mut so, "c03_imports", format!("the composition imports {oi}; the instantiated component needs {ci}"));
+                            }
                         }
                     }
                 }
